@@ -121,6 +121,15 @@ func forType(t reflect.Type, seen map[reflect.Type]bool, ignore bool, schemas ma
 	allowNull := false
 	for t.Kind() == reflect.Pointer {
 		allowNull = true
+		if t.Name() != "" {
+			// A named pointer type can be part of a cycle made of pointers only
+			// (type P *P), which following the pointers would never leave.
+			if seen[t] {
+				return nil, fmt.Errorf("cycle detected for type %v", t)
+			}
+			seen[t] = true
+			defer delete(seen, t)
+		}
 		t = t.Elem()
 	}
 
